@@ -238,7 +238,7 @@ func boundingBox(longitude, latitude, radius float64) (
 /* This function is used in order to estimate the step (bits precision)
  * of the 9 search area boxes during radius queries. */
 func estimateStepsByRadius(rangeMeters, latitude float64) uint8 {
-	if rangeMeters == 0 {
+	if rangeMeters <= 0 {
 		return WGS84_GEO_STEP
 	}
 	var step int8 = 1
